@@ -145,7 +145,11 @@ def run_track_impl(env, case):
         wps = [env.Location(float(lo), float(la)) for lo, la in case['wps']]
         obs = {'results': []}
         try:
-            t = GT(wps, allow_overstep=bool(case['overstep']))
+            if case.get('via_great_circle') and len(wps) == 2:
+                # the documented shortcut for two end points (what the trajectory builders call)
+                t = GT.great_circle(wps[0], wps[1], allow_overstep=bool(case['overstep']))
+            else:
+                t = GT(wps, allow_overstep=bool(case['overstep']))
         except Exception as e:  # noqa: BLE001
             obs['init_error'] = 'internal:' + type(e).__name__
             return obs, geod
@@ -784,6 +788,32 @@ def main(ctx):
     cases = [build_track_case(env, rng, 'manhattan') for _ in range(n_man)]
     for i in range(n_real):
         cases.append(build_track_case(env, rng, 'table', REAL_STYLES[i % len(REAL_STYLES)]))
+    # two-point tracks are also built through `GroundTrack.great_circle`, and every such track is followed by its twin: the same
+    # end points and queries with the OTHER overstep setting, in the same process (tracks must not share anything)
+    twins = []
+    for c in cases:
+        if len(c['wps']) == 2 and rng.random() < 0.6:
+            c['via_great_circle'] = True
+            twins.append((c, dict(c, overstep=not c['overstep'])))
+    for c, tw in twins:
+        cases.insert(cases.index(c) + 1, tw)
+    # (the generators rarely give two-point tracks: add some, with queries aimed past the end)
+    for i in range(ctx.scale(40, 600)):
+        world = 'manhattan' if i % 2 else 'table'
+        for _ in range(20):
+            c = build_track_case(env, rng, world, None if world == 'manhattan' else REAL_STYLES[i % len(REAL_STYLES)])
+            c['wps'] = [c['wps'][0], c['wps'][1]]          # (one leg: axis-aligned in the Manhattan world)
+            if c['wps'][0] != c['wps'][1]:
+                break
+        probe = dict(c, queries=[])
+        obs, _ = run_track_impl(env, probe)
+        if 'index' not in obs or not all(math.isfinite(x) for x in obs['index']):
+            continue
+        c['queries'] = gen_queries(rng, obs['index'], world == 'manhattan')
+        c['via_great_circle'] = True
+        cases.append(c)
+        cases.append(dict(c, overstep=not c['overstep']))
+    ctx.extra['two_point_tracks_via_great_circle'] = sum(1 for c in cases if c.get('via_great_circle'))
     # missions: real airports (both orders are evaluated inside), synthetic positions in both worlds
     for _ in range(n_gc):
         r = rng.random()
